@@ -17,6 +17,8 @@ type cmBehavior struct {
 	termKill int     // ProcessTerminate saw TerminateReasonKill
 	afterEnd int     // a ProcessRun entered after ProcessTerminate
 	failTag  int     // handler returns an error when it handles this tag (-1 never)
+	callTag  int     // handler makes a synchronous request (which times out) when it handles this tag (-1 never)
+	queue    int     // which mailbox queue this behaviour serves: 0 main, 1 system (High), 2 urgent (Max)
 }
 
 func (b *cmBehavior) enter() {
@@ -36,7 +38,14 @@ func (b *cmBehavior) ProcessRun() error {
 	lib.VerifAssert(t == 0, "no callback runs after the terminate callback")
 	var result error
 	for {
-		v, ok := b.p.mailbox.Main.Pop()
+		q := b.p.mailbox.Main
+		switch b.queue {
+		case 1:
+			q = b.p.mailbox.System
+		case 2:
+			q = b.p.mailbox.Urgent
+		}
+		v, ok := q.Pop()
 		if !ok {
 			break
 		}
@@ -45,6 +54,12 @@ func (b *cmBehavior) ProcessRun() error {
 		h := lib.VerifSharedLoad(&b.handled[tag])
 		lib.VerifAssert(h == 0, "a message is handled at most once")
 		lib.VerifSharedStore(&b.handled[tag], 1)
+		if tag == b.callTag {
+			// a synchronous request nobody answers: the real waitResponse parks the process in the
+			// WaitResponse state until the (virtual) timer fires
+			b.p.waitResponse(gen.Ref{Node: "n@h", ID: [3]uint64{77, 0, 0}}, 1)
+			lib.VerifReach("handler waited for a response")
+		}
 		if tag == b.failTag {
 			result = errVfReason
 			break
@@ -77,7 +92,9 @@ func VerifC01Gate() {
 	lib.VerifClockAdvance(0)
 	n := vfNode()
 	p, _ := vfProc(n, 2000, "", gen.ProcessStateSleep, 0)
-	b := &cmBehavior{p: p, failTag: lib.VerifParam("failtag", -1)}
+	prio := lib.VerifParam("priority", 0)
+	b := &cmBehavior{p: p, failTag: lib.VerifParam("failtag", -1), callTag: lib.VerifParam("calltag", -1), queue: prio}
+	mprio := []gen.MessagePriority{gen.MessagePriorityNormal, gen.MessagePriorityHigh, gen.MessagePriorityMax}[prio]
 	p.behavior = b
 	unreg := 0
 	lib.VerifOverride("(*ergo.services/ergo/node.node).unregisterProcess", func(nn *node, pp *process, reason error) {
@@ -85,12 +102,27 @@ func VerifC01Gate() {
 		lib.VerifAssert(u == 0, "a process is unregistered at most once")
 		lib.VerifSharedStore(&unreg, 1)
 	})
+	if lib.VerifParam("preload", 0) == 1 {
+		// one message (tag 3) is already queued and a waker runs the real process.run(): the runner it
+		// starts races with the senders below (a send while the process is about to go to sleep)
+		qm := gen.TakeMailboxMessage()
+		qm.Message = 3
+		q := p.mailbox.Main
+		switch prio {
+		case 1:
+			q = p.mailbox.System
+		case 2:
+			q = p.mailbox.Urgent
+		}
+		q.Push(qm)
+		lib.VerifGo("waker", func() { p.run() })
+	}
 	sent := make([]int, senders) // 1 ok, 2 error
 	for i := 0; i < senders; i++ {
 		i := i
 		from := gen.PID{Node: n.name, ID: 3000 + uint64(i), Creation: 1}
 		lib.VerifGo("sender", func() {
-			err := n.RouteSendPID(from, p.pid, gen.MessageOptions{}, i)
+			err := n.RouteSendPID(from, p.pid, gen.MessageOptions{Priority: mprio}, i)
 			if err == nil {
 				lib.VerifSharedStore(&sent[i], 1)
 			} else {
@@ -103,6 +135,9 @@ func VerifC01Gate() {
 	}
 	lib.VerifAtQuiescence(func() {
 		alive := lib.VerifSharedLoad(&b.terms) == 0 && lib.VerifSharedLoad(&unreg) == 0
+		if lib.VerifParam("preload", 0) == 1 && alive {
+			lib.VerifAssert(lib.VerifSharedLoad(&b.handled[3]) == 1, "a queued message is handled once the process has been woken")
+		}
 		for i := 0; i < senders; i++ {
 			s := lib.VerifSharedLoad(&sent[i])
 			h := lib.VerifSharedLoad(&b.handled[i])
